@@ -112,6 +112,44 @@ def geometry_laws(ift):
             out.append("%r: scalar_dvol %r disagrees with dvol" % (sp, sd))
         if isinstance(sp, (ift.GLSpace, ift.HPSpace)) and abs(sp.total_volume - 4 * math.pi) > 1e-12:
             out.append("%r: the sphere has volume %r, not 4 pi" % (sp, sp.total_volume))
+    # default partner domains (closed forms asserted in PowerBins.tla)
+    for sp in spaces:
+        try:
+            if isinstance(sp, ift.RGSpace):
+                cd = sp.get_default_codomain()
+                if cd.harmonic == sp.harmonic or cd.shape != sp.shape or not np.allclose(np.array(sp.shape) * np.array(sp.distances) * np.array(cd.distances), 1., rtol=1e-14):
+                    out.append("%r: the default partner %r does not have pixels of size 1 / (n d)" % (sp, cd))
+                if cd.get_default_codomain() != sp or not np.allclose(cd.get_default_codomain().distances, sp.distances, rtol=1e-14):
+                    out.append("%r: the partner of the default partner is %r" % (sp, cd.get_default_codomain()))
+                sp.check_codomain(cd)
+                if not np.isclose(np.prod(sp.extents) if hasattr(sp, "extents") else sp.total_volume, sp.total_volume, rtol=1e-14):
+                    out.append("%r: the product of the extents %r is not the total volume %r" % (sp, sp.extents, sp.total_volume))
+                for wrong, why in ((ift.RGSpace(sp.shape, tuple(2. * x for x in cd.distances), harmonic=cd.harmonic), "distances"), (ift.RGSpace(sp.shape, cd.distances, harmonic=sp.harmonic), "harmonic flag")):
+                    try:
+                        sp.check_codomain(wrong)
+                        out.append("%r: check_codomain accepts a partner with wrong %s" % (sp, why))
+                    except (AttributeError, TypeError, ValueError):
+                        pass
+            elif isinstance(sp, ift.LMSpace):
+                gl = sp.get_default_codomain()
+                if (gl.nlat, gl.nlon) != (sp.lmax + 1, 2 * sp.mmax + 1):
+                    out.append("LMSpace(%d,%d): default partner GLSpace(%d,%d), documented (lmax + 1, 2 mmax + 1)" % (sp.lmax, sp.mmax, gl.nlat, gl.nlon))
+                back = gl.get_default_codomain()
+                if (back.lmax, back.mmax) != (sp.lmax, sp.mmax):
+                    out.append("LMSpace(%d,%d) -> %r -> LMSpace(%d,%d): the round trip changes the band limit" % (sp.lmax, sp.mmax, gl, back.lmax, back.mmax))
+                sp.check_codomain(gl)
+            elif isinstance(sp, ift.GLSpace):
+                lm = sp.get_default_codomain()
+                if (lm.lmax, lm.mmax) != (max(sp.nlon // 2, sp.nlat - 1), sp.nlon // 2):
+                    out.append("%r: default partner LMSpace(%d,%d)" % (sp, lm.lmax, lm.mmax))
+                sp.check_codomain(lm)
+            elif isinstance(sp, ift.HPSpace):
+                lm = sp.get_default_codomain()
+                if (lm.lmax, lm.mmax) != (2 * sp.nside, 2 * sp.nside):
+                    out.append("%r: default partner LMSpace(%d,%d), documented lmax = mmax = 2 nside" % (sp, lm.lmax, lm.mmax))
+                sp.check_codomain(lm)
+        except Exception as e:
+            out.append("%r: partner domain functions raised %s: %s" % (sp, type(e).__name__, str(e)[:100]))
     return out, n
 
 
